@@ -41,7 +41,9 @@ func contentType(name string, inline bool) string {
 	return "html"
 }
 
-var c12Payloads = []string{"<b>&\"'", "</script>", "a'b\"c", "x&y<z", "\\n;}{", "é<ü>", "1<2", "a b/c=d", "'+alert(1)+'", "&amp;", "%20&#39;", "plain"}
+var c12Payloads = []string{"<b>&\"'", "</script>", "a'b\"c", "x&y<z", "\\n;}{", "é<ü>", "1<2", "a b/c=d", "'+alert(1)+'", "&amp;", "%20&#39;", "plain",
+	// nothing but letters and digits, some of them beyond ASCII: html leaves these alone, js / css / url / html_attr do not
+	"Zoë", "日本語", "abc\u2028alert1", "ÿ", "a1", ""}
 var c12Names = []string{"a.html", "b.html.twig", "c.js", "d.js.twig", "e.css", "f.txt", "g.txt.twig", "noext", "h.twig", "i.xml", "dir.d/x", "k.tpl", "l.css.twig", "m.htm",
 	// names without any dot that equal a content-type key
 	"txt", "js", "css.twig", "html_attr", "txt.twig", "dir/js", ".txt", "a.b.js"}
